@@ -228,6 +228,25 @@ def main(argv=None):
     if targets:
         with mp.Pool(min(args.jobs, max(1, len(targets))), initializer=_init_worker, initargs=(pid, tier)) as pool:
             results = pool.map(_verify_one, targets, chunksize=1)
+    # ---- custom (syntactic frame) obligations of the plan ----
+    for name in plan.get('custom', []):
+        modname, fname = name.rsplit('.', 1)
+        tc = time.time()
+        try:
+            obs = getattr(importlib.import_module(modname), fname)(w)
+            j = {'function': name, 'status': 'failed' if any(o['status'] == 'failed' for o in obs) else 'ok',
+                 'message': '', 'paths': 1, 'normal_paths': 1, 'raise_paths': {}, 'obligations': len(obs),
+                 'discharged': sum(1 for o in obs if o['status'] == 'proved'),
+                 'failed': [{'label': o['label'], 'path': '', 'model': None, 'claim': o['detail'],
+                             'witness': o.get('witness')} for o in obs if o['status'] == 'failed'],
+                 'unknown': [], 'secs': round(time.time() - tc, 3), 'solver_secs': 0.0, 'source_hash': '',
+                 'all_obligations': [{'label': o['label'], 'status': o['status'], 'path': '', 'secs': 0.0}
+                                     for o in obs]}
+        except Exception:
+            j = {'function': name, 'status': 'error', 'message': traceback.format_exc()[-1500:], 'paths': 0,
+                 'normal_paths': 0, 'raise_paths': {}, 'obligations': 0, 'discharged': 0, 'failed': [],
+                 'unknown': [], 'secs': 0.0, 'solver_secs': 0.0, 'source_hash': '', 'all_obligations': []}
+        results.append(j)
     known = load_known(pid)
     violations = []
     known_hits = []
@@ -236,9 +255,14 @@ def main(argv=None):
     n_obl = 0
     n_dis = 0
     solver_s = 0.0
+    n_bounded = 0
     for j in results:
-        n_obl += j['obligations']
-        n_dis += j['discharged']
+        if j.get('bounded'):
+            # bounded stand-in (enumerated sequence lengths): reported, never counted as proved
+            n_bounded += j['discharged']
+        else:
+            n_obl += j['obligations']
+            n_dis += j['discharged']
         solver_s += j['solver_secs']
         if j['status'] == 'failed':
             for f in j['failed']:
@@ -299,6 +323,13 @@ def main(argv=None):
                                         f['label'].rsplit(':', 1)[1].split('#')[0], f['model'], pn)
             except Exception as e:
                 rep = {'confirmed': None, 'detail': 'replay crashed: %s' % e}
+        if f.get('witness'):
+            try:
+                native.setup_repo_path()
+                wm, wf = f['witness'].rsplit('.', 1)
+                rep = getattr(importlib.import_module(wm), wf)()
+            except Exception as e:
+                rep = {'confirmed': None, 'detail': 'witness crashed: %s' % e}
         confirmed = bool(rep and rep.get('confirmed'))
         with open(rp, 'w') as fh:
             json.dump({'property': pid, 'obligation': f['label'], 'function': j['function'], 'path': f['path'],
@@ -367,7 +398,9 @@ def write_evidence(pid, plan, tier, seed, results, n_obl, n_dis, solver_s, evals
         'trusted_base': plan.get('trusted_base', []) + sorted(set(w.assumed)),
         'functions_under_contract': [{'function': j['function'], 'status': j['status'], 'paths': j['paths'],
                                       'obligations': j['obligations'], 'discharged': j['discharged'],
-                                      'source_hash': j['source_hash'], 'secs': j['secs']} for j in results],
+                                      'source_hash': j['source_hash'], 'secs': j['secs'],
+                                      'bounded': j.get('bounded')} for j in results],
+        'bounded_lemma_instances': sum(j['discharged'] for j in results if j.get('bounded')),
         'per_backend': {'z3-%s' % __import__('z3').get_version_string(): n_dis},
         'solver_s': round(solver_s, 2),
         'out_of_reach': [{'function': j['function'], 'why': j['message'][:300]} for j in results
